@@ -277,7 +277,10 @@ class Frame:
             return True
         # expression statement
         v = self.e(n)
-        if isinstance(v, tuple) and v and v[0] == "call":
+        n0 = strip_all(n)
+        is_asg = n0 is not None and (n0.get("k") in ("BinaryOperator", "CompoundAssignOperator") or
+                                     (n0.get("k") == "CXXOperatorCallExpr" and n0.get("op") in ("=", "+=", "-=", "*=", "/=")))
+        if isinstance(v, tuple) and v and v[0] == "call" and not is_asg:
             self.ev.effects.append((self.cond_now(), v, n))
         return False
 
@@ -849,7 +852,7 @@ class Frame:
             return ("unknown", "indirect call")
         if n.get("mg") in self.F.functions:
             args = [self.e(a) for a in args_n]
-            return self.inline_or_opaque(n, self.F.functions[n["mg"]], None, args)
+            return self.inline_or_opaque(n, self.F.functions[n["mg"]], None, args, args_n)
         args = tuple(self.fz(self.e(a)) for a in args_n)
         name = MATH_NAMES.get(fn, fn)
         if name == "pow" and len(args) == 2 and args[1][0] == "num" and args[1][1].denominator == 1 and 0 <= args[1][1] <= 8:
@@ -872,7 +875,7 @@ class Frame:
         fr.run()
         return fr.result()
 
-    def inline_or_opaque(self, n, g, this, args):
+    def inline_or_opaque(self, n, g, this, args, arg_nodes=None):
         name = g["name"]
         if self.depth >= self.ev.max_depth or name in self.ev.opaque or not self.ev.inline(name, g):
             vals = tuple(self.fz(a) for a in args)
@@ -889,7 +892,14 @@ class Frame:
         # heap of a method called on `this` of the caller is shared
         if this == self.this and this is not None:
             fr.heap = self.heap
+        before = {p["id"]: env.get(p["id"]) for p in g["params"]}
         fr.run()
+        if arg_nodes is not None:
+            for p, an in zip(g["params"], arg_nodes):
+                if p.get("ref") and not p.get("cref"):
+                    new = fr.env.get(p["id"])
+                    if new is not before.get(p["id"]) and new != before.get(p["id"]) and not isinstance(new, (MatVal, StructVal)):
+                        self.assign(an, new)
         return fr.result()
 
 
